@@ -66,7 +66,7 @@ var c05Check = register("C05", "c05.lossless", func(c *losslessCase) error {
 	return nil
 })
 
-const c05Rule = "C05: the C01 pairwise table (every (language,size,position,index) tuple) and rapid-generated structured entropies are encoded by the implementation and decoded by the reference decoder (golden word->index map, concatenate, drop CS bits); for rapid cases every one of the ENT single-bit flips is encoded too and must give a different sentence that decodes to the flipped entropy. Non-trivial: every case; distinct by (language, entropy); flips counted separately in flips_checked"
+const c05Rule = "C05: the C01 pairwise table (every (language,size,position,index) tuple) the extreme-byte-length sentences of every language and size (longest / shortest list words), and rapid-generated structured entropies are encoded by the implementation and decoded by the reference decoder (golden word->index map, concatenate, drop CS bits); for rapid cases every one of the ENT single-bit flips is encoded too and must give a different sentence that decodes to the flipped entropy. Non-trivial: every case; distinct by (language, entropy); flips counted separately in flips_checked"
 
 func c05Record(c *losslessCase) {
 	cov.Eval(1)
@@ -95,6 +95,16 @@ func TestC05_Table(t *testing.T) {
 				c05Record(c)
 				judge(t, "c05.lossless", c05Check, c)
 			}
+		}
+	}
+	for _, l := range allLangs() {
+		if !mine(int(l)) {
+			continue
+		}
+		for _, e := range extremeEntropies(l) {
+			c := &losslessCase{Lang: l.Name(), Entropy: e, Flips: true, Shape: "table-extreme-length"}
+			c05Record(c)
+			judge(t, "c05.lossless", c05Check, c)
 		}
 	}
 	cov.Exhaustive("every (language, size, word position, 11-bit index) tuple: 10 x 90 x 2048")
